@@ -110,7 +110,31 @@ func run() {
 func tname(i int) string { return fmt.Sprintf("t%02d", i) }
 func mname(i int) string { return fmt.Sprintf("m%03d", i) }
 
+// thin, when set (quick tier), drops some of the trivial cases (fewer than 2 members or fewer than 2
+// partitions anybody subscribes to) of the exhaustive scopes so that the random sections dominate.
+var thin func() bool
+
+func trivial(ms []bal.Mem, ts []bal.Topic) bool {
+	ids, subs := map[string]bool{}, map[string]bool{}
+	for _, m := range ms {
+		ids[m.ID] = true
+		for _, s := range m.Subs {
+			subs[s] = true
+		}
+	}
+	parts := 0
+	for _, t := range ts {
+		if subs[t.Name] {
+			parts += int(t.Count)
+		}
+	}
+	return len(ids) < 2 || parts < 2
+}
+
 func emit(ms []bal.Mem, ts []bal.Topic, kinds string) {
+	if thin != nil && trivial(ms, ts) && thin() {
+		return
+	}
 	m, t := bal.EncMembers(ms), bal.EncTopics(ts)
 	for _, k := range kinds {
 		if k == 's' {
@@ -316,6 +340,9 @@ func gen(a hx.Args) {
 		}
 		return g
 	}
+	if !thorough {
+		thin = func() bool { return r.Intn(100) < 60 }
+	}
 	// --- small scope, one claimant per partition: every subscription x ownership pattern
 	type scope struct{ n, k, p, pct int }
 	scopes := []scope{{2, 2, 2, 100}, {3, 2, 2, 6}, {3, 3, 1, 6}, {3, 1, 3, 100}}
@@ -354,6 +381,7 @@ func gen(a hx.Args) {
 			emit(ms, ts, "sc")
 		})
 	}
+	thin = nil
 	// --- random structured groups (C25's generator: perturbed previous assignment, racks, malformed metadata)
 	for i := 0; i < a.N(1200, 30000); i++ {
 		sh := bal.Shape{MaxMembers: 6, MaxTopics: 4, MaxParts: 8}
